@@ -53,6 +53,10 @@ std::string probe_ring(const D& F) {
     F.axmy(r, a, b, c);  F.write(os, r) << ' ';
     F.inv(r, a);         F.write(os, r) << ' ';
     F.div(r, c, b);      F.write(os, r) << ' ';
+    // the middle of the residue range (⌊q/2⌋): where a balanced representation changes sign, i.e. where cached half-moduli matter
+    { typename D::Element h, t; F.init(h, Integer(F.cardinality()) / 2);
+      F.neg(t, h); F.write(os, t) << ' '; F.add(t, h, F.zero); F.write(os, t) << ' '; F.sub(t, F.zero, h); F.write(os, t) << ' ';
+      F.mul(t, h, F.one); F.write(os, t) << ' '; F.add(t, h, h); F.write(os, t) << ' '; }
     // (in-place forms are left to C15: the probe must not depend on another property's defects)
     F.assign(s, a); F.write(os, s) << ' ';
     os << (F.areEqual(a, b) ? 1 : 0) << (F.isZero(a) ? 1 : 0) << (F.isOne(F.one) ? 1 : 0) << ' ';
@@ -431,9 +435,15 @@ inline const std::map<std::string, Maker>& kinds() {
         // primes for which 2 is not a primitive root: the constructor draws the generator of its tables with rand(), so two rings
         // built independently for the same prime may use different tables (only visible when elements cross objects)
         {"Modular_Log16_b", [](int i) -> Box* { return new RingBox<Modular<Log16>>(i ? 23 : 17); }},
+        // element type ruint<7> with the double-width compute type ruint<8> (its fused kernels keep a double-width product buffer)
+        {"Modular_ruint7_ruint8", [](int i) -> Box* { return new RingBox<Modular<RecInt::ruint<7>, RecInt::ruint<8>>>(RecInt::ruint<7>(i ? uint64_t(18446744073709551557ULL) : uint64_t(101))); }},
         {"Modular_ruint7", [](int i) -> Box* { return new RingBox<Modular<RecInt::ruint<7>>>(RecInt::ruint<7>(i ? 4294967291u : 101u)); }},
         {"ModularBalanced_int32", [](int i) -> Box* { return new RingBox<ModularBalanced<int32_t>>(i ? 65521 : 101); }},
         {"ModularBalanced_int64", [](int i) -> Box* { return new RingBox<ModularBalanced<int64_t>>(i ? int64_t(2147483647) : int64_t(101)); }},
+        // even moduli (powers of two, so that the probe's odd operands are units): a cached bound such as -⌊p/2⌋ that is right for odd
+        // moduli only is invisible with the odd moduli above
+        {"ModularBalanced_int64_even", [](int i) -> Box* { return new RingBox<ModularBalanced<int64_t>>(i ? int64_t(4294967296LL) : int64_t(16)); }},
+        {"ModularBalanced_double_even", [](int i) -> Box* { return new RingBox<ModularBalanced<double>>(i ? 4096. : 16.); }},
         {"ModularBalanced_double", [](int i) -> Box* { return new RingBox<ModularBalanced<double>>(i ? 67108859. : 101.); }},
         {"ModularBalanced_float", [](int i) -> Box* { return new RingBox<ModularBalanced<float>>(i ? 4093.f : 101.f); }},
         {"ModularExtended_double", [](int i) -> Box* { return new RingBox<ModularExtended<double>>(i ? 1125899906842597. : 101.); }},
